@@ -85,6 +85,8 @@ def run_part(ctx, case, bad, mlr_rows, P, ref_fmtnum):
         if mz:
             fc = mz.group(1) + mz.group(2).replace("0", "") + mz.group(3)      # C: the 0 flag is ignored when an integer conversion has a precision (python % differs)
         want = ref_fmtnum(n, fc) if re.fullmatch(r"[^%]*%[-+ 0#]*\d*(?:\.\d+)?(?:ll|l)?[dxXobeEfgGs][^%]*", f) else None
+        if re.search(r"\.\d*b", f):
+            want = None                               # %b with a precision: not in C99 printf (the python reference ignores the precision)
         if want is not None and not (set("+ ") & set(re.match(r"[^%]*%([-+ 0#]*)", f).group(1)) and re.search(r"[xXob]", f)):
             if o["o"] != want:
                 bad(classify(n, f, o["o"]), input={"value": n, "format": f}, observed=o["o"], expected=want, how=info["how"])
